@@ -130,12 +130,12 @@ Fixpoint ev (fuel : nat) (e : sx) (s : st) : res (Z * st) :=
   end.
 
 (* ---------- vyper memory layout of a value ---------- *)
-Definition vmem_size := fix vm (t : ty) : Z :=
+Fixpoint vmem_size (t : ty) : Z :=
   match t with
   | TBytes b | TString b => 32 + ceil32 b
-  | TSArr t' n => n * vm t'
-  | TDArr t' b => 32 + b * vm t'
-  | TTuple ts => fold_right (fun t' acc => vm t' + acc) 0 ts
+  | TSArr t' n => n * vmem_size t'
+  | TDArr t' b => 32 + b * vmem_size t'
+  | TTuple ts => fold_right (fun t' acc => vmem_size t' + acc) 0 ts
   | _ => 32
   end.
 
